@@ -463,10 +463,29 @@ def rule_e(ck, R):
     # honesty of the reported status: SUCCESS can only be what the area write reported; every path that stops before
     # the write reports a failure code
     SUCC = C(E.get('REG_ACCESS_SUCCESS'))
+
+    def write_elided(p):
+        """the one way to report SUCCESS without the write: the path has established that the write would change nothing
+        and could not fail - the area is written by the library's own memory writer (a->write == reg_mem_write) and the
+        serialised image has been compared equal, octet for octet (memcmp == 0 over the register's size), with the memory
+        the writer would copy it to (a->mem + e->offset).  Storage then holds exactly the value, as after the write."""
+        own = any(c[0] == 'cmp' and c[1] == '==' and fmt(c[2]).endswith('->write') and strip_cast(c[3]) == ('fn', 'reg_mem_write') or
+                  c[0] == 'cmp' and c[1] == '==' and fmt(c[3]).endswith('->write') and strip_cast(c[2]) == ('fn', 'reg_mem_write') for c in p.cond_terms())
+        if not own:
+            return False
+        for c in p.cond_terms():
+            if c[0] == 'cmp' and c[1] == '==' and c[3] == C(0) and strip_cast(c[2])[0] == 'call' and strip_cast(c[2])[1] == 'memcmp':
+                a = strip_cast(c[2])[2]
+                dst, img, ln = fmt(a[0]), fmt(a[1]), fmt(a[2])
+                if ('->mem' in dst and '->offset' in dst and 'raw' in img and 'rds_size' in ln) or ('->mem' in img and '->offset' in img and 'raw' in dst and 'rds_size' in ln):
+                    return True
+        return False
     for p in ps:
         if 'write' in classify(p) or p.end != 'return':
             continue
         code = dict(p.ret[2]).get('code') if p.ret is not None and p.ret[0] == 'struct' else None
+        if code == SUCC and write_elided(p):
+            continue
         if code is None or code == SUCC or not sym.is_c(code):
             bad = bad or ('the path {%s} ends without writing but reports %s: the caller is told the value was stored'
                           % ('; '.join(fmt(c) for c in p.cond_terms()[-2:])[:200], 'REG_ACCESS_SUCCESS' if code in (None, SUCC) else fmt(code)))
